@@ -111,7 +111,7 @@ soxr_quality_spec_t soxr_quality_spec(unsigned long recipe, unsigned long flags)
     p->e = "invalid quality type";
     return spec;
   }
-  flags |= quality < SOXR_LSR0Q ? RESET_ON_CLEAR : 0;
+  flags |= q < SOXR_LSR0Q ? RESET_ON_CLEAR : 0; /* the recipe, not the mapped quality: LSR converters must not re-create at the old ratio */
   p->phase_response = "\62\31\144"[(recipe & 0x30)>>4];
   p->stopband_begin = 1;
   p->precision =
